@@ -25,14 +25,28 @@ scripts: C11_spec_holds) judges the implementation's observations on their own: 
 the operation had to finish and how (`fate`: flush = body runs exactly once and decides the outcome, cancel = body
 does not run), exactly one event per change of the snapshot and no other, order (body first, no completion of an item
 of the batch after its announcement), fresh batch iff the finished batch held the slot, KEEP_DEPENDENCIES, single
-assignment, and the invariant `Good` (no item of a finished batch pending)."""
+assignment, and the invariant `Good` (no item of a finished batch pending).
+
+Interactions (family `svc`, mode `batchingm hist`; model AsynqModel.Lib.BatchServices, theorems Theorems/C11s.lean):
+SEVERAL services side by side with interleaved histories - harness subclasses, each with its own slot, and DebugBatches
+under different NAMES, the name being any dictionary key (str, "", None, 0, True, int, tuple, (), bytes, frozenset, nan,
+a member of a (str, Enum) class, str subclasses with and without their own __str__, a key object with value equality /
+constant hash / raising __bool__, a plain object, the defaults of DebugBatchItem() and sync(), and the str() of such a
+key as the name of a SECOND service), a service may live on a thread of its own (the registry is a threading.local);
+batch objects constructed by the client that do not hold the slot (`nb`: MyBatch() / DebugBatch(name, index), items put
+on them, finished in every way); debug options switched while batches are pending (`opt`: KEEP_DEPENDENCIES is part of
+the model - flush() reads it when it runs -, the others must change nothing).  Every observation of a service is judged
+against the snapshot its own previous observation left, so an operation that disturbs another service is rejected there.
+The DebugBatch of the single-service families runs under all names that are unique per case, too.
+Family `sched` (mode `batchingm sched`): tasks awaiting DebugBatchItems of one or two names for several rounds, the
+batches flushed by the scheduler; judged by a direct expectation in Drv/BatchServices.lean (no theorem)."""
 import hashlib
 import json
 import random
 
 PID = "C11"
 LEVEL = "proof"
-LEAN_MODULES = ["AsynqModel.Theorems.C11"]
+LEAN_MODULES = ["AsynqModel.Theorems.C11", "AsynqModel.Theorems.C11s"]
 THEOREMS = [
     # headline: the observer accepts every history of the model; the invariant; the inductive step for EVERY snapshot
     # inside the invariant (hypothesis `Good s`, decidable - weaker than reachability)
@@ -58,9 +72,22 @@ THEOREMS = [
     # holds by construction of the model (one unfolding, any state): listed for the axiom audit only, the content of
     # this clause is the correspondence check
     "AsynqModel.Batching.C11_second_flush_error",
+    # several services interleaved, free-standing batches, KEEP_DEPENDENCIES switched in mid-flight (Theorems/C11s.lean)
+    "AsynqModel.Batching.C11_services_spec_holds",
+    "AsynqModel.Batching.C11_services_no_item_left_pending",
+    "AsynqModel.Batching.C11_services_step",
+    "AsynqModel.Batching.C11_free_batch_good",
+    "AsynqModel.Batching.C11_free_batch_keeps_slot",
+    # by construction of the extended model (listed for the axiom audit)
+    "AsynqModel.Batching.C11_services_independent",
+    "AsynqModel.Batching.C11_keep_switch_good",
 ]
 BY_CONSTRUCTION = [
     "AsynqModel.Batching.C11_second_flush_error",
+    "AsynqModel.Batching.C11_services_independent (stepM touches component v only: the model gives every service its own "
+    "state because the code looks the slot up under self.name only; that the real services do not disturb each other is "
+    "the correspondence check)",
+    "AsynqModel.Batching.C11_keep_switch_good (the invariant Good does not mention the option)",
     "first conjunct of C11_flush / C11_cancel (`returns normally`): the model has no exception channel out of "
     "flush()/cancel(); what is proved with content is the rest of these statements",
 ]
@@ -74,6 +101,16 @@ RULE = ("systematic core (both batch kinds x 14 flush-script templates x 7 ways 
         "value None, 22 % of the cases under 1-3 debug options, a small stream of operations on non-existent tokens); "
         "family reenter (systematic 11 bodies x 6 finishers x 3 fillings + 500 random histories with self-cancelling bodies "
         "/ cancelling handlers; thorough 6000); "
+        "the DebugBatch of all these under 15 kinds of name (60 % of the random debug cases; systematic: 14 kinds x 7 "
+        "finishers x 4 fillings); "
+        "family svc (mode batchingm hist): one DebugBatch service under each of 23 kinds of name x 7 finishers x 2 "
+        "fillings; two services side by side (9 pairs name / str(name) and the like + 3 pairs with a harness subclass) x "
+        "7 finishers x second service on the main / on its own thread; free-standing batch objects (6 services x 7 "
+        "finishers x 2 continuations); every debug option switched on / off between add and flush (2 services x 7 "
+        "options x 4 finishers x 2 phases); 1 500 (thorough 15 000) random interleavings of 1-3 services (40 % harness "
+        "subclass, random names, 40 % on one of two helper threads, 6 % free-standing batches, 7 % option switches, 3-30 "
+        "operations); family sched (mode batchingm sched): 23 names x 3 (rounds, tasks) shapes, 9 pairs x 2 threads, 7 "
+        "options, thorough also 6 rounds x 13 tasks; "
         "non-trivial = a batch with at least one item finishes and the history has >= 3 operations; distinct by "
         "(kind, options, scripts, history) hash")
 TRUSTED = [
@@ -83,6 +120,10 @@ TRUSTED = [
     "qcore.EventHook.safe_trigger, qcore.errors.reraise",
     "family `reenter` (mode batchingx): the expectation written in lean/AsynqModel/Drv/Batching.lean handleX and the "
     "observer's relaxed mode rx",
+    "family `sched` (mode batchingm sched): the expectation written in lean/AsynqModel/Drv/BatchServices.lean handleSched "
+    "(no theorem speaks about it) and the scheduler of the library that flushes the batches",
+    "family `svc`: the helper threads of the harness (one call at a time, the main thread waits), the read of the "
+    "thread-local registry `asynq.batching._debug_batch_state.batches.get(name)` for the snapshot (read-only)",
 ]
 ASSUMPTIONS = [
     "flush bodies are the scripted ones (set value/error of own items, create requests, raise); they do not re-enter "
@@ -98,8 +139,23 @@ ASSUMPTIONS = [
     "what FLUSH BODIES do, so this lies outside the statement; neither model nor generator contain it",
     "on_computed handlers of items only log, issue new requests and complete pending items of the SAME batch; handlers "
     "that raise are C10's subject; handlers that re-enter flush()/cancel()/value() of a batch are not generated",
-    "of the debug options only KEEP_DEPENDENCIES exists in the model; DUMP_FLUSH_BATCH, DUMP_STACK, DUMP_SYNC, "
-    "DUMP_COMPUTED, DUMP_DEPENDENCIES, COLLECT_PERF_STATS are expected to change nothing observable; single thread",
+    "of the debug options only KEEP_DEPENDENCIES exists in the model (a configuration in the single-service model, "
+    "switchable between two operations in the model of family svc); DUMP_FLUSH_BATCH, DUMP_STACK, DUMP_SYNC, "
+    "DUMP_COMPUTED, DUMP_DEPENDENCIES, COLLECT_PERF_STATS are expected to change nothing observable, also when switched "
+    "in mid-flight; options are switched between operations, not from inside a flush body",
+    "threads: every service lives on ONE thread (all its operations, handlers and snapshots run there) and operations of "
+    "different threads never overlap in time; a batch is never finished from a thread other than the one its service "
+    "lives on (DebugBatch would then look its slot up in the other thread's registry; the property text does not speak "
+    "about threads)",
+    "two services of one case never have EQUAL names (True/1, a (str, Enum) member and its value, ... are one key and "
+    "therefore one service); that names which are different dictionary keys are different services - e.g. 7 and '7' - "
+    "is read off the mechanism (batching.py:239-241,255) and demanded by the families svc and sched",
+    "compiled build: `cdef public str name` (batching.pxd) accepts an exact str or None only, every other kind of name "
+    "makes DebugBatch.__init__ raise TypeError there; under the compiled build the harness replaces such names by a plain "
+    "str (feature `name=` shows what ran)",
+    "asyncio mode is outside C11: asynq_to_async.py:58-59 rejects batch items there ('asynq BatchItem is not supported "
+    "in asyncio mode'); asynq.mock, deduplicate / caches, scoped values, async_proxy, asynq.generator do not touch "
+    "batching.py",
     "for DebugBatch the flush body itself cannot be hooked through public API: its runs are observed through the "
     "item completions only (run counter fixed to 0, no body/bodyEnd events; the observer then demands the outcome "
     "None or FutureIsAlreadyComputed)",
@@ -184,6 +240,8 @@ def gen_case(rng, size=None):
         c["opts"] = sorted(rng.sample(OPTS, rng.choice([1, 1, 2, 3])))
     if c["kind"] == "debug":
         c["pre"] = rng.choice(["flush", "flush", "cancel", "value"])
+        if rng.random() < 0.6:
+            c["name"] = rng.choice(UNIQUE_NAMES)      # the service's name: any dictionary key
     return c
 
 
@@ -237,6 +295,13 @@ def systematic():
             for fin in FINISHERS:
                 for adds in ADDS:
                     cases.append(_case(kind, t, fin, adds))
+    # DebugBatch under every kind of name (the slot is a dictionary entry; the key is whatever the client passed)
+    for nk in UNIQUE_NAMES[1:]:
+        for fin in FINISHERS:
+            for adds in (ADDS[0], ADDS[1], ADDS[3], ADDS[5]):
+                c = _case("debug", TEMPLATES[0], fin, adds, None, ["flush", "cancel", "value"][len(cases) % 3])
+                c["name"] = nk
+                cases.append(c)
     # the same core under every debug option batching.py (and the futures under it) reads, one at a time and KEEP + DUMP
     for opts in [[o] for o in OPTS] + [["DUMP_FLUSH_BATCH", "KEEP_DEPENDENCIES"], list(OPTS)]:
         for kind in KINDS:
@@ -310,12 +375,142 @@ def reenter(tier, rng):
     return cases
 
 
+
+# ---- family `svc`: several services interleaved, free-standing batches, debug options switched in mid-flight ----
+
+def _svc(kind, name=None, thread=0, scripts=None, pre=None):
+    s = {"kind": kind}
+    if kind == "debug":
+        s["name"] = name or "plain"
+        s["pre"] = pre or "flush"
+    else:
+        s["scripts"] = [[list(a) for a in x] for x in (scripts if scripts is not None else [[["setAll"]]])]
+    if thread:
+        s["thread"] = thread
+    return s
+
+
+def _on(v, ops):
+    return [[v] + list(o) for o in ops]
+
+
+SVC_PROBES = [["itemValue", 0], ["itemValue", 1], ["flush", 1], ["cancel", 1, 2], ["addTo", 1, 7], ["isEmpty", 1],
+              ["batchError", 1], ["add", 8, None, None], ["itemValue", 0], ["flush", 1], ["isFlushed", 0]]
+
+
+def services(tier, rng):
+    cases = []
+
+    def mk(svcs, ops, opts=None):
+        c = {"fam": "svc", "svcs": svcs, "ops": ops}
+        if opts:
+            c["opts"] = list(opts)
+        cases.append(c)
+
+    # (a) one DebugBatch service under every kind of name, shared names included (leftovers of earlier computations)
+    for nk in NAME_KINDS:
+        for fi, fin in enumerate(FINISHERS):
+            for adds in (ADDS[0], ADDS[3]):
+                mk([_svc("debug", nk, 0, None, ["none", "flush", "cancel", "value"][(fi + len(adds)) % 4])],
+                   _on(0, list(adds) + [fin] + SVC_PROBES))
+    # (b) two services side by side (a name and the str() of it; two names of one kind; a user subclass and a
+    #     DebugBatch), the second one possibly on a thread of its own: finishing a batch of one leaves the other alone
+    t3 = [[["setValue", 0, 1], ["newItem", 4], ["raise", 5]], [["setAll"]], [["setAll"]]]
+    pairs = [(_svc("debug", a, 0, None, "none"), _svc("debug", b)) for a, b in RELATED_NAMES]
+    pairs += [(_svc("user", scripts=t3), _svc("debug", "tuple")), (_svc("user", scripts=t3), _svc("user", scripts=[[]])),
+              (_svc("debug", "strenum"), _svc("user", scripts=t3))]
+    for a, b in pairs:
+        for fin in FINISHERS:
+            for th in (0, 1):
+                b2 = dict(b)
+                if th:
+                    b2["thread"] = 1
+                ops = (_on(0, [["add", 1, None, None]]) + _on(1, [["add", 2, None, None]]) + _on(0, [["add", 3, 4, None]])
+                       + _on(1, [["add", 0, 5, None]]) + _on(0, [fin]) + _on(1, [["add", 6, None, None], ["isFlushed", 0]])
+                       + _on(0, SVC_PROBES[:6]) + _on(1, [fin]) + _on(1, SVC_PROBES[:8]) + _on(0, [["add", 2, None, None]]))
+                mk([dict(a), b2], ops)
+    # (c) a batch object constructed by the client (does not hold the slot): items put on it, finished in every way,
+    #     while the active batch has items of its own; then the active batch is finished
+    for sv in (_svc("user", scripts=[[["setAll"]], [["setValue", 0, 2], ["newItem", 3]], [["setAll"]], [["raise", 2]]]),
+               _svc("user", scripts=[[], [["raise", 6]], [], []]), _svc("debug", "plain"), _svc("debug", "tuple"),
+               _svc("debug", "default"), _svc("debug", "none", 1)):
+        for fin in FINISHERS:
+            for late in (0, 1):
+                ops = _on(0, [["add", 1, None, None]]) + [["nb", 0]] + _on(0, [["addTo", 0, 5], ["addTo", 0, 0], ["add", 2, 7, None]])
+                ops += _on(0, [fin if fin[0] != "itemValue" else ["itemValue", 1]])
+                ops += _on(0, [["isFlushed", 1], ["isFlushed", 0], ["add", 3, None, None], ["flush", 0], ["addTo", 0, 1]])
+                if late:
+                    ops += [["nb", 0]] + _on(0, [["cancel", 0, None], ["flush", 1], ["flush", 0], ["add", 4, None, None]])
+                else:
+                    ops += _on(0, [["flush", 1], ["itemValue", 0], ["flush", 1]])
+                mk([sv], ops)
+    # (d) a debug option switched while batches are pending (KEEP_DEPENDENCIES is read by flush() when it runs;
+    #     the others must change nothing)
+    for sv in (_svc("user", scripts=[[["setValue", 0, 1]], [["setAll"]], []]), _svc("debug", "int")):
+        for o in OPTS:
+            for fin in (FINISHERS[0], FINISHERS[4], FINISHERS[5], FINISHERS[1]):
+                for start in (0, 1):
+                    ops = _on(0, [["add", 1, None, None], ["add", 2, None, None]]) + [["opt", o, 1 - start]]
+                    ops += _on(0, [fin, ["isEmpty", 1], ["add", 3, 4, None]]) + [["opt", o, start]]
+                    ops += _on(0, [["add", 5, None, None], ["flush", 0], ["isEmpty", 1], ["itemValue", 0], ["itemValue", 3]])
+                    mk([sv], ops, [o] if start else None)
+    # random interleavings
+    for _ in range(1500 if tier == "quick" else 15000):
+        n = rng.choice([1, 2, 2, 3])
+        svcs = []
+        for v in range(n):
+            if rng.random() < 0.4:
+                svcs.append(_svc("user", None, rng.choice([0, 0, 0, 1, 2]),
+                                 [gen_script(rng) for _ in range(rng.choice([1, 2, 3, 6]))]))
+            else:
+                svcs.append(_svc("debug", rng.choice(NAME_KINDS), rng.choice([0, 0, 0, 1, 2]), None,
+                                 rng.choice(["none", "none", "flush", "cancel", "value"])))
+        # two services must not share a key: shared names at most once, never `true` next to ... (1 is not generated)
+        used = set()
+        for s in svcs:
+            if s["kind"] == "debug" and s["name"] in SHARED_NAMES:
+                if s["name"] in used:
+                    s["name"] = "plain"
+                used.add(s["name"])
+        ops = []
+        for _ in range(rng.choice([3, 5, 8, 12, 16, 24, 30])):
+            r = rng.random()
+            if r < 0.06:
+                ops.append(["nb", rng.randrange(n)])
+            elif r < 0.13:
+                ops.append(["opt", "KEEP_DEPENDENCIES" if rng.random() < 0.6 else rng.choice(OPTS), rng.choice([0, 1])])
+            else:
+                ops.append([rng.randrange(n)] + gen_op(rng))
+        mk(svcs, ops, sorted(rng.sample(OPTS, rng.choice([1, 1, 2]))) if rng.random() < 0.2 else None)
+    return cases
+
+
+def scheduled(tier):
+    """family `sched`: tasks awaiting DebugBatchItems of 1-2 names, the scheduler flushes (direct expectation)"""
+    cases = []
+    for nk in NAME_KINDS:
+        for rounds, tasks in ((1, 1), (2, 3), (3, 2)):
+            cases.append({"fam": "sched", "rounds": rounds, "svcs": [{"name": nk, "tasks": tasks}]})
+    for a, b in RELATED_NAMES:
+        for th in (0, 1):
+            cases.append({"fam": "sched", "rounds": 2, "thread": th,
+                          "svcs": [{"name": a, "tasks": 2}, {"name": b, "tasks": 3}]})
+    for o in OPTS:
+        cases.append({"fam": "sched", "rounds": 2, "opts": [o], "svcs": [{"name": "tuple", "tasks": 2}, {"name": "plain", "tasks": 1}]})
+    if tier != "quick":
+        for nk in NAME_KINDS:
+            cases.append({"fam": "sched", "rounds": 6, "thread": 1, "svcs": [{"name": nk, "tasks": 9}, {"name": "plain", "tasks": 4}]})
+    return cases
+
+
 def plan(tier, seed):
     rng = random.Random(seed * 1000003 + 11)
     n = 6000 if tier == "quick" else 60000
     cases = corpus() + systematic() + sized(tier)
     cases += [gen_case(rng) for _ in range(n)]
     cases += reenter(tier, random.Random(seed * 1000003 + 1111))
+    cases += services(tier, random.Random(seed * 1000003 + 2222))
+    cases += scheduled(tier)
     return cases
 
 
@@ -325,7 +520,59 @@ def _with(case, **kw):
     return c
 
 
+def _shrink_svc(case):
+    ops, svcs = case["ops"], case["svcs"]
+    if case.get("opts"):
+        for o in case["opts"]:
+            yield _with(case, opts=[x for x in case["opts"] if x != o])
+    for i in range(len(ops)):
+        yield _with(case, ops=ops[:i] + ops[i + 1:])
+    if len(svcs) > 1:
+        # drop the last service together with its operations
+        last = len(svcs) - 1
+        yield _with(case, svcs=svcs[:-1], ops=[o for o in ops if not (o[0] == last or (o[0] == "nb" and o[1] == last))])
+    for v, s in enumerate(svcs):
+        if s.get("thread"):
+            yield _with(case, svcs=svcs[:v] + [{k: x for k, x in s.items() if k != "thread"}] + svcs[v + 1:])
+        if s["kind"] == "user":
+            for j, sc in enumerate(s.get("scripts") or []):
+                for i in range(len(sc)):
+                    s2 = dict(s, scripts=[list(map(list, x)) for x in s["scripts"]])
+                    del s2["scripts"][j][i]
+                    yield _with(case, svcs=svcs[:v] + [s2] + svcs[v + 1:])
+    for i, op in enumerate(ops):
+        if isinstance(op[0], int) and op[1] == "add":
+            for pos in (3, 4):
+                if len(op) > pos and op[pos] is not None:
+                    o2 = [list(o) for o in ops]
+                    o2[i][pos] = None
+                    yield _with(case, ops=o2)
+
+
+def _shrink_sched(case):
+    if case.get("opts"):
+        yield _with(case, opts=[])
+    if case.get("thread"):
+        yield _with(case, thread=0)
+    if len(case["svcs"]) > 1:
+        yield _with(case, svcs=case["svcs"][:1])
+        yield _with(case, svcs=case["svcs"][1:])
+    if case["rounds"] > 1:
+        yield _with(case, rounds=case["rounds"] - 1)
+    for j, s in enumerate(case["svcs"]):
+        if s["tasks"] > 1:
+            yield _with(case, svcs=case["svcs"][:j] + [dict(s, tasks=1)] + case["svcs"][j + 1:])
+
+
 def shrink(case):
+    if case.get("fam") == "svc":
+        for c in _shrink_svc(case):
+            yield c
+        return
+    if case.get("fam") == "sched":
+        for c in _shrink_sched(case):
+            yield c
+        return
     ops, scripts = case["ops"], case["scripts"]
     if case.get("opts"):
         for o in case["opts"]:
@@ -354,6 +601,27 @@ def shrink(case):
 
 
 def neighbours(case, rng):
+    if case.get("fam") == "sched":
+        for nk in NAME_KINDS:
+            yield _with(case, svcs=[dict(case["svcs"][0], name=nk)] + case["svcs"][1:])
+        return
+    if case.get("fam") == "svc":
+        n = len(case["svcs"])
+        for _ in range(30):
+            ops = [list(o) for o in case["ops"]]
+            r = rng.random()
+            if ops and r < 0.3:
+                ops[rng.randrange(len(ops))] = [rng.randrange(n)] + gen_op(rng)
+            elif r < 0.7:
+                ops.insert(rng.randint(0, len(ops)), [rng.randrange(n)] + gen_op(rng))
+            else:
+                ops.append([rng.randrange(n), "itemValue", rng.randint(0, 3)])
+            yield _with(case, ops=ops)
+        return
+    if case["kind"] == "debug":
+        for nk in ("plain", "tuple", "strenum"):
+            if nk != case.get("name", "plain"):
+                yield _with(case, name=nk)
     for k in KINDS:
         if k != case["kind"]:
             yield _with(case, kind=k)
@@ -375,6 +643,15 @@ def neighbours(case, rng):
 
 
 def signature(case, v):
+    if case.get("fam") == "sched":
+        names = {s.get("name", "plain") for s in case["svcs"]}
+        return "sched%s/%s" % ("" if names <= {"plain"} else "-nonstr-name", v["spec"])
+    if case.get("fam") == "svc":
+        kinds = sorted({s["kind"] for s in case["svcs"]})
+        names = {s.get("name", "plain") for s in case["svcs"] if s["kind"] == "debug"}
+        return "svc-%s%s/%s" % ("+".join(kinds), "" if names <= {"plain"} else "-nonstr-name", v["spec"])
+    if case["kind"] == "debug" and case.get("name", "plain") != "plain":
+        return "debug-nonstr-name/%s" % v["spec"]
     return "%s/%s" % (case["kind"], v["spec"])
 
 
@@ -445,10 +722,199 @@ class EmptyList(list):
     __ne__ = _no
 
 
+
+# ---------------------------------------------------------------------------------------------------
+# the NAME of a DebugBatch service: `DebugBatchItem(batch_name, result)` accepts any dictionary key
+# ---------------------------------------------------------------------------------------------------
+# unique per case (the registry `_debug_batch_state.batches` of a worker thread lives as long as the worker):
+UNIQUE_NAMES = ["plain", "int", "numstr", "tuple", "tuplestr", "strenum", "enumstr", "strsub_str", "otherstr", "strsub",
+                "bytes", "frozenset", "nan", "eqkey", "object"]
+# the same key in every case: what an earlier computation on the thread left behind is cancelled first
+SHARED_NAMES = ["none", "nonestr", "default", "syncdefault", "zero", "empty", "emptytuple", "true"]
+NAME_KINDS = UNIQUE_NAMES + SHARED_NAMES
+# what the compiled build accepts (`cdef public str name` in batching.pxd: an exact str, or None)
+COMPILED_NAMES = {"plain", "numstr", "tuplestr", "enumstr", "otherstr", "none", "nonestr", "default", "syncdefault",
+                  "empty"}
+# pairs of names that must stay two services although one is the str() of the other
+RELATED_NAMES = [("int", "numstr"), ("tuple", "tuplestr"), ("strenum", "enumstr"), ("strsub_str", "otherstr"),
+                 ("none", "nonestr"), ("plain", "plain"), ("eqkey", "object"), ("zero", "empty"), ("default", "syncdefault")]
+
+
+class OddStr(str):
+    """a str whose str() is a different text"""
+    other = ""
+
+    def __str__(self):
+        return self.other
+
+
+class PlainSub(str):
+    pass
+
+
+class EqKey(object):
+    """a dictionary key with value equality and a constant hash: a fresh, equal instance is made for every use;
+       it refuses bool() and has a str() that is nobody's key"""
+    def __init__(self, u):
+        self.u = u
+
+    def __eq__(self, other):
+        return type(other) is EqKey and other.u == self.u
+
+    def __ne__(self, other):
+        return not self.__eq__(other)
+
+    def __hash__(self):
+        return 7
+
+    __bool__ = _no
+    __len__ = _no
+
+    def __str__(self):
+        return "default"
+
+    def __repr__(self):
+        return "EqKey(%r)" % (self.u,)
+
+
+def make_name(kind, uniq, compiled, slot=0):
+    """-> (kind actually used, thunk giving the key object for one use, tag for batching.sync or None)"""
+    if compiled and kind not in COMPILED_NAMES:
+        kind = "plain"
+    u = "%s-%d" % (uniq, slot)
+    n = abs(hash(uniq)) % (10 ** 9) * 8 + slot if not isinstance(uniq, int) else uniq * 8 + slot
+    if kind == "plain":
+        s = "sync-c11-" + u
+        return kind, (lambda: s), "c11-" + u
+    if kind == "int":
+        return kind, (lambda: n), None
+    if kind == "numstr":
+        s = str(n)
+        return kind, (lambda: s), None
+    if kind == "tuple":
+        return kind, (lambda: tuple(["shard", n])), None          # a fresh, equal tuple for every use
+    if kind == "tuplestr":
+        s = str(("shard", n))
+        return kind, (lambda: s), None
+    if kind in ("strenum", "enumstr"):
+        import enum
+        Tag = enum.Enum("Tag%d" % n, {"USERS": "users-" + u}, type=str)
+        m = Tag.USERS                                              # IS a str, str(m) == "Tag<n>.USERS"
+        if kind == "strenum":
+            return kind, (lambda: m), None
+        s = "Tag%d.USERS" % n
+        return kind, (lambda: s), None
+    if kind == "strsub_str":
+        o = OddStr("odd-" + u)
+        o.other = "other-" + u
+        return kind, (lambda: o), None
+    if kind == "otherstr":
+        s = "other-" + u
+        return kind, (lambda: s), None
+    if kind == "strsub":
+        o = PlainSub("sub-" + u)
+        return kind, (lambda: o), None
+    if kind == "bytes":
+        return kind, (lambda: ("b-" + u).encode()), None
+    if kind == "frozenset":
+        return kind, (lambda: frozenset([n, "k"])), None
+    if kind == "nan":
+        x = float("nan")                                           # found by identity only
+        return kind, (lambda: x), None
+    if kind == "eqkey":
+        return kind, (lambda: EqKey(n)), None
+    if kind == "object":
+        o = object()
+        return kind, (lambda: o), None
+    if kind == "none":
+        return kind, (lambda: None), None
+    if kind == "nonestr":
+        return kind, (lambda: "None"), None
+    if kind == "default":
+        return kind, (lambda: "default"), None
+    if kind == "syncdefault":
+        return kind, (lambda: "sync-default"), "default"
+    if kind == "zero":
+        return kind, (lambda: 0), None
+    if kind == "empty":
+        return kind, (lambda: ""), None
+    if kind == "emptytuple":
+        return kind, (lambda: ()), None
+    if kind == "true":
+        return kind, (lambda: True), None
+    raise ValueError(kind)
+
+
+def debug_item(batching, nkind, key, tag, p, v):
+    """a request to the DebugBatch service `key()` through the public entry points, in all their spellings"""
+    if p == 0:
+        if tag == "default":
+            return batching.sync()                       # sync(tag="default") -> DebugBatchItem("sync-default")
+        if tag is not None:
+            return batching.sync(tag) if len(tag) % 2 else batching.sync(tag=tag)
+        if nkind == "default":
+            return batching.DebugBatchItem()             # both defaults: name "default", result None
+        return batching.DebugBatchItem(key())            # result=None by default
+    if nkind == "default" and p % 3 == 0:
+        return batching.DebugBatchItem(result=v)
+    if p % 2:
+        return batching.DebugBatchItem(batch_name=key(), result=v)
+    return batching.DebugBatchItem(key(), v)
+
+
+def debug_batch(batching, nkind, key, n):
+    """a DebugBatch object constructed by the client (public class): it does not hold the slot of its name"""
+    if nkind == "default" and n % 3 == 0:
+        return batching.DebugBatch()
+    if n % 2:
+        return batching.DebugBatch(name=key(), index=n + 3)
+    return batching.DebugBatch(key(), n + 3)
+
+
+class _Runner(object):
+    """a helper thread that executes one call at a time (a service may live on a thread of its own)"""
+    def __init__(self):
+        import threading
+        import queue
+        self.q, self.r = queue.Queue(), queue.Queue()
+        self.t = threading.Thread(target=self._loop)
+        self.t.daemon = True
+        self.t.start()
+
+    def _loop(self):
+        while True:
+            fn = self.q.get()
+            if fn is None:
+                return
+            try:
+                self.r.put((True, fn()))
+            except BaseException as e:
+                self.r.put((False, e))
+
+    def call(self, fn):
+        self.q.put(fn)
+        ok, v = self.r.get()
+        if ok:
+            return v
+        raise v
+
+    def stop(self):
+        self.q.put(None)
+        self.t.join(2)
+
+
+class _Inline(object):
+    def call(self, fn):
+        return fn()
+
+    def stop(self):
+        pass
+
+
 _serial = [0]
 
 
-def run_case(case):
+def _run_single(case):
     import asynq
     from asynq import batching, futures
 
@@ -641,17 +1107,18 @@ def run_case(case):
             return b.flush_count
     else:
         _serial[0] += 1
-        tag = "c11-%d-%d" % (case.get("id", 0), _serial[0])
-        name = "sync-" + tag     # the name asynq.batching.sync(tag) uses
+        # the name of the service: any dictionary key (plain: "sync-<tag>", the name asynq.batching.sync(tag) uses)
+        nkind, key, tag = make_name(case.get("name", "plain"), case.get("id", 0) * 1000 + _serial[0] % 1000,
+                                    not batching.__file__.endswith(".py"))
         # bring the service's slot into existence with public API only: a throw-away request that is flushed,
         # cancelled, or asked for its value (what an earlier computation on this thread leaves behind)
         pre = case.get("pre", "flush")
         if pre == "cancel":
-            batching.DebugBatchItem(name).batch.cancel()
+            batching.DebugBatchItem(key()).batch.cancel()
         elif pre == "value":
-            batching.sync(tag).value()
+            debug_item(batching, nkind, key, tag, 0, None).value()
         else:
-            batching.DebugBatchItem(name).batch.flush()
+            batching.DebugBatchItem(key()).batch.flush()
 
         class RawItem(batching.BatchItemBase):
             def __init__(self, batch, result):
@@ -659,15 +1126,11 @@ def run_case(case):
                 self._result = result
 
         def get_active():
-            return batching._debug_batch_state.batches.get(name)  # read-only
+            return batching._debug_batch_state.batches.get(key())  # read-only
 
         def construct(batch, p):
             if batch is None:
-                if p == 0:
-                    return batching.sync(tag)      # the public entry point: DebugBatchItem("sync-" + tag), result None
-                if p % 2:
-                    return batching.DebugBatchItem(batch_name=name, result=vals[p])   # the keyword spelling
-                return batching.DebugBatchItem(name, vals[p])
+                return debug_item(batching, nkind, key, tag, p, vals[p])   # sync(tag) / DebugBatchItem, all spellings
             return RawItem(batch, vals[p])
 
         def runs_of(b):
@@ -823,6 +1286,8 @@ def run_case(case):
         feats.append("fam=" + case["fam"])
     if case.get("pre"):
         feats.append("pre=" + case["pre"])
+    if kind == "debug":
+        feats.append("name=" + nkind)
     if kind == "user":
         feats += sorted({"act=" + a[0] for s in scripts for a in s})
     for key, needle in (("second-flush-raises", "(raised batching)"), ("add-after-finish-raises", "(raised assertAdd)"),
@@ -845,3 +1310,583 @@ def run_case(case):
     if finished_with_items >= 1 and len(case["ops"]) >= 3:
         nontrivial = hashlib.sha1(json.dumps([kind, opts, scripts, case["ops"]]).encode()).hexdigest()[:16]
     return {"lines": lines, "features": feats, "nontrivial": nontrivial}
+
+
+# ---------------------------------------------------------------------------------------------------
+# family `svc` (mode batchingm / hist): several services interleaved, free-standing batches, options in mid-flight
+# ---------------------------------------------------------------------------------------------------
+
+def run_multi(case):
+    import asynq
+    from asynq import batching, futures
+
+    compiled = not batching.__file__.endswith(".py")
+    _serial[0] += 1
+    uniq = case.get("id", 0) * 1000 + _serial[0] % 1000
+    vals = {0: None, 1: ("v", 1), 2: 0, 3: "", 4: Weird(), 5: False, 6: EmptyList(), 7: ValueError("a value"),
+            8: float("nan"), 9: asynq.ConstFuture(("v", 9))}
+    errs = {1: UserErr("e1"), 2: FalsyErr("e2"), 3: futures.FutureIsAlreadyComputed("a user's own"),
+            4: batching.BatchCancelledError("a user's own"),
+            5: UserBase("b5"), 6: KeyboardInterrupt("b6"), 7: SystemExit(7), 8: FalsyBase("b8")}
+    val_tok = {id(v): k for k, v in vals.items() if v is not None}
+    err_tok = {id(e): k for k, e in errs.items()}
+    flag = {"in_set": False, "closed": False}
+    stats = {"during": 0, "linked": 0, "finished": 0, "free_finished": 0}
+    runners = {0: _Inline()}
+
+    def vt(v):
+        return 0 if v is None else val_tok.get(id(v), UNKNOWN)
+
+    def et(e, item=None):
+        if id(e) in err_tok:
+            return "(user %d)" % err_tok[id(e)]
+        if isinstance(e, batching.BatchCancelledError):
+            if item is not None:
+                b = item.batch
+                if not (b.is_computed() and b.error() is e):
+                    return "(other foreignBatchCancelledError)"
+            return "cancelled"
+        if isinstance(e, futures.FutureIsAlreadyComputed):
+            return "already"
+        if type(e) is batching.BatchingError:
+            return "batching"
+        if isinstance(e, AssertionError) and "wasn't set on batch flush" in str(e):
+            return "notSet"
+        if isinstance(e, AssertionError) and "can't add an item" in str(e):
+            return "assertAdd"
+        return "(other %s)" % type(e).__name__
+
+    def peek(f, item=None):
+        if not f.is_computed():
+            return "none"
+        e = f.error()
+        if e is not None:
+            return "(err %s)" % et(e, item)
+        return "(val %d)" % vt(f.value())
+
+    class Svc(object):
+        pass
+
+    def on_batch(S, t):
+        if flag["closed"]:
+            return
+        act = see_active(S)
+        b = S.batches[t]
+        pend = [i for i, it in enumerate(S.items) if it.batch is b and not it.is_computed()]
+        S.events.append("(announce %d (%s) %d)" % (t, " ".join(map(str, pend)), act))
+
+    def btok(S, b):
+        t = S.btoks.get(id(b))
+        if t is None:
+            t = len(S.batches)
+            S.btoks[id(b)] = t
+            S.batches.append(b)
+            b.on_computed.subscribe(lambda _b, t=t: on_batch(S, t))
+        return t
+
+    def itok(S, it):
+        return S.itoks.get(id(it), UNKNOWN)
+
+    def see_active(S):
+        a = S.get_active()
+        return UNKNOWN if a is None else btok(S, a)
+
+    def on_item(S, i):
+        if flag["closed"]:
+            return
+        it = S.items[i]
+        S.events.append("(item %d %s %d)" % (i, peek(it, it), 1 if flag["in_set"] else 0))
+        if S.spawn[i] is not None:
+            src = btok(S, it.batch)
+            try:
+                make_item(S, None, S.spawn[i], None, src)
+            except AssertionError:
+                S.events.append("(createFail %d)" % src)
+        lk = S.links[i]
+        if lk is not None and lk[0] < len(S.items):
+            tgt = S.items[lk[0]]
+            if tgt.batch is it.batch and not tgt.is_computed():
+                stats["linked"] += 1
+                prev = flag["in_set"]
+                flag["in_set"] = True
+                try:
+                    if lk[1]:
+                        tgt.set_error(errs[lk[2]])
+                    else:
+                        tgt.set_value(vals[lk[2]])
+                finally:
+                    flag["in_set"] = prev
+
+    def set_item(it, is_value, x):
+        flag["in_set"] = True
+        try:
+            if is_value:
+                it.set_value(x)
+            else:
+                it.set_error(x)
+        finally:
+            flag["in_set"] = False
+
+    def make_item(S, batch, p, sp, src, lk=None):
+        it = S.construct(batch, p)
+        if src is not None:
+            stats["during"] += 1
+        i = len(S.items)
+        S.items.append(it)
+        S.itoks[id(it)] = i
+        S.payload.append(p)
+        S.spawn.append(sp)
+        S.links.append(lk)
+        S.events.append("(created %d %d %s)" % (i, btok(S, it.batch), _sx(src)))
+        it.on_computed.subscribe(lambda _it, i=i: on_item(S, i))
+        return i
+
+    def snapshot(S):
+        a = see_active(S)
+        bs = " ".join("(B %s (%s) %d)" % (peek(b), " ".join(str(itok(S, x)) for x in b.items), S.runs_of(b))
+                      for b in S.batches)
+        its = " ".join("(I %d %d %s %s %s)" % (btok(S, it.batch), S.payload[i], _sx(S.spawn[i]), _lx(S.links[i]),
+                                               peek(it, it)) for i, it in enumerate(S.items))
+        return "(st %d (batches %s) (items %s))" % (a, bs, its)
+
+    def make_user(S):
+        class Slot(object):
+            active = None
+
+        slot = Slot()
+
+        class MyBatch(batching.BatchBase):
+            def __init__(self):
+                super(MyBatch, self).__init__()
+                self.flush_count = 0
+
+            def _try_switch_active_batch(self):
+                if slot.active is self:
+                    slot.active = MyBatch()
+
+            def _flush(self):
+                self.flush_count += 1
+                t = btok(S, self)
+                S.events.append("(body %d %d)" % (t, see_active(S)))
+                try:
+                    self._body(t)
+                except BaseException as ex:
+                    if type(ex).__name__ != "CaseTimeout":
+                        S.events.append("(bodyEnd %d %s %s)" % (t, et(ex), peek(self)))
+                    raise
+                S.events.append("(bodyEnd %d none %s)" % (t, peek(self)))
+
+            def _body(self, t):
+                for a in (S.scripts[t] if t < len(S.scripts) else []):
+                    if a[0] == "setValue":
+                        if a[1] < len(self.items):
+                            set_item(self.items[a[1]], True, vals[a[2]])
+                    elif a[0] == "setError":
+                        if a[1] < len(self.items):
+                            set_item(self.items[a[1]], False, errs[a[2]])
+                    elif a[0] == "setAll":
+                        for it in list(self.items):
+                            if not it.is_computed():
+                                set_item(it, True, vals[S.payload[itok(S, it)]])
+                    elif a[0] == "newItem":
+                        make_item(S, None, a[1], None, t)
+                    elif a[0] == "raise":
+                        raise errs[a[1]]
+                    else:
+                        raise ValueError(a)
+
+            def _cancel(self):
+                pass
+
+        class MyItem(batching.BatchItemBase):
+            pass
+
+        slot.active = MyBatch()
+        S.get_active = lambda: slot.active
+        S.construct = lambda batch, p: MyItem(slot.active if batch is None else batch)
+        S.runs_of = lambda b: b.flush_count
+        S.new_batch = lambda n: MyBatch()
+        S.nkind = "-"
+        S.cleanup = lambda: None
+
+    def make_debug(S, sd, v):
+        nkind, key, tag = make_name(sd.get("name", "plain"), uniq, compiled, v)
+        S.nkind = nkind
+        reg = batching._debug_batch_state      # a threading.local: read on the service's own thread only
+
+        def leftover():
+            # a shared name: cancel whatever an earlier computation on this thread left behind (its handlers are dead)
+            b = reg.batches.get(key())
+            if b is not None and not b.is_computed():
+                b.cancel()
+
+        def pre():
+            try:
+                if nkind in SHARED_NAMES:
+                    leftover()
+                how = sd.get("pre", "flush")
+                if how == "none":
+                    return      # no throw-away request: the service's first operation below is a request (see S.first)
+                if how == "cancel":
+                    batching.DebugBatchItem(key()).batch.cancel()
+                elif how == "value":
+                    debug_item(batching, nkind, key, tag, 0, None).value()
+                else:
+                    batching.DebugBatchItem(key()).batch.flush()
+            except AssertionError:
+                pass        # the slot holds a finished batch: the history below will show it
+
+        class RawItem(batching.BatchItemBase):
+            def __init__(self, batch, result):
+                super(RawItem, self).__init__(batch)
+                self._result = result
+
+        S.runner.call(pre)
+
+        def pre_ok():
+            a = reg.batches.get(key())
+            if sd.get("pre", "flush") == "none":
+                return a is None or (not a.is_computed() and len(a.items) == 0)
+            return a is not None and not a.is_computed() and len(a.items) == 0
+
+        S.pre_ok = S.runner.call(pre_ok)
+        # without a throw-away request the slot comes into existence with the first request of the history itself:
+        # the harness puts one in front (the model's batch 0 is the batch `setdefault` creates for it)
+        S.first = sd.get("pre", "flush") == "none"
+        S.get_active = lambda: reg.batches.get(key())
+        S.construct = lambda batch, p: (debug_item(batching, nkind, key, tag, p, vals[p]) if batch is None
+                                        else RawItem(batch, vals[p]))
+        S.runs_of = lambda b: 0
+        S.new_batch = lambda n: debug_batch(batching, nkind, key, n)
+        S.cleanup = lambda: S.runner.call(leftover)
+
+    def resolve(k, n):
+        if k >= 1000:
+            return k
+        if n == 0:
+            return 0
+        return n - 1 - (k % n)
+
+    dbg = asynq.debug.options
+    saved = {}
+    sink = None
+    try:
+        import io
+        sink = (asynq.debug, asynq.debug.stdout)
+        asynq.debug.stdout = io.StringIO()
+    except Exception:
+        sink = None
+    svcs = []
+    opts0 = list(case.get("opts") or [])
+    keep0 = "KEEP_DEPENDENCIES" in opts0
+    toggled = set()
+    lines = []
+    nobs = [0]
+
+    def set_opt(o, on):
+        if o not in saved:
+            saved[o] = getattr(dbg, o)
+        setattr(dbg, o, bool(on))
+
+    def do_op(S, op):
+        """one operation of the history on service S, on S's thread; returns the observation line"""
+        name_ = op[0]
+        nb, ni = len(S.batches), len(S.items)
+        before = [b.is_computed() for b in S.batches]
+        batches, items = S.batches, S.items
+        try:
+            if name_ == "add":
+                lk = op[3] if len(op) > 3 else None
+                rop = "(add %d %s %s)" % (op[1], _sx(op[2]), _lx(lk))
+                res = "(created %d)" % make_item(S, None, op[1], op[2], None, lk)
+            elif name_ == "addTo":
+                b = resolve(op[1], nb)
+                rop = "(addTo %d %d)" % (b, op[2])
+                res = "(invalid)" if b >= nb else "(created %d)" % make_item(S, batches[b], op[2], None, None)
+            elif name_ in ("itemValue", "itemComputed"):
+                i = resolve(op[1], ni)
+                rop = "(%s %d)" % (name_, i)
+                if i >= ni:
+                    res = "(invalid)"
+                elif name_ == "itemComputed":
+                    res = "(bool %d)" % (1 if items[i].is_computed() else 0)
+                else:
+                    x = items[i].value()
+                    res = "(ok %d)" % vt(x) if vt(x) != UNKNOWN else "(marker)"
+            else:
+                b = resolve(op[1], nb)
+                rop = "(cancel %d %s)" % (b, _sx(op[2])) if name_ == "cancel" else "(%s %d)" % (name_, b)
+                if b >= nb:
+                    res = "(invalid)"
+                elif name_ == "flush":
+                    batches[b].flush()
+                    res = "(unit)"
+                elif name_ == "cancel":
+                    if op[2] is None:
+                        if nobs[0] % 2:
+                            batches[b].cancel()
+                        else:
+                            batches[b].cancel(error=None)
+                    elif nobs[0] % 2:
+                        batches[b].cancel(errs[op[2]])
+                    else:
+                        batches[b].cancel(error=errs[op[2]])
+                    res = "(unit)"
+                elif name_ == "batchValue":
+                    x = batches[b].value()
+                    res = "(ok %d)" % vt(x) if vt(x) != UNKNOWN else "(marker)"
+                elif name_ == "batchError":
+                    e = batches[b].error()
+                    res = "(errIs none)" if e is None else "(errIs %s)" % et(e)
+                elif name_ == "isFlushed":
+                    res = "(bool %d)" % (1 if batches[b].is_flushed() else 0)
+                elif name_ == "isCancelled":
+                    res = "(bool %d)" % (1 if batches[b].is_cancelled() else 0)
+                elif name_ == "isEmpty":
+                    res = "(bool %d)" % (1 if batches[b].is_empty() else 0)
+                else:
+                    raise HarnessBug(name_)
+        except BaseException as e:
+            if type(e).__name__ == "CaseTimeout" or isinstance(e, HarnessBug):
+                raise
+            res = "(raised %s)" % et(e)
+        snap = snapshot(S)
+        for t, was in enumerate(before):
+            if not was and batches[t].is_computed() and any(it.batch is batches[t] for it in items):
+                stats["finished"] += 1
+                if t in S.free:
+                    stats["free_finished"] += 1
+        evs = " ".join(S.events)
+        del S.events[:]
+        return "(obs %d %s %s (%s) %s)" % (S.v, rop, res, evs, snap)
+
+    def do_nb(S, n):
+        b = S.new_batch(n)
+        S.free.add(btok(S, b))
+        snap = snapshot(S)
+        evs = " ".join(S.events)
+        del S.events[:]
+        return "(nb %d (%s) %s)" % (S.v, evs, snap)
+
+    try:
+        for o in opts0:
+            set_opt(o, True)
+        hdr = []
+        for v, sd in enumerate(case["svcs"]):
+            S = Svc()
+            S.v, S.kind = v, sd["kind"]
+            S.scripts = (sd.get("scripts") or []) if S.kind == "user" else []
+            S.events, S.batches, S.btoks, S.items, S.itoks = [], [], {}, [], {}
+            S.payload, S.spawn, S.links, S.free = [], [], [], set()
+            th = sd.get("thread", 0)
+            if th not in runners:
+                runners[th] = _Runner()
+            S.runner = runners[th]
+            S.thread = th
+            if S.kind == "user":
+                make_user(S)
+            else:
+                make_debug(S, sd, v)
+            S.runner.call(lambda S=S: see_active(S))
+            svcs.append(S)
+            hdr.append("(svc %s %s)" % (S.kind, script_sexp(S.scripts)))
+        lines.append("(case batchingm %d hist (keep %d) %s)" % (case["id"], 1 if keep0 else 0, " ".join(hdr)))
+        for S in svcs:
+            if S.kind == "debug":
+                lines.append("(pre %d %d)" % (S.v, 1 if S.pre_ok else 0))
+        for S in svcs:
+            if getattr(S, "first", False):
+                lines.append(S.runner.call(lambda S=S: do_op(S, ["add", 2 + S.v, None, None])))
+        for op in case["ops"]:
+            nobs[0] += 1
+            if op[0] == "opt":
+                set_opt(op[1], op[2])
+                toggled.add(op[1])
+                if op[1] == "KEEP_DEPENDENCIES":
+                    lines.append("(setKeep %d)" % (1 if op[2] else 0))
+            elif op[0] == "nb":
+                if op[1] < len(svcs):
+                    S = svcs[op[1]]
+                    lines.append(S.runner.call(lambda S=S: do_nb(S, nobs[0])))
+            elif op[0] < len(svcs):
+                S = svcs[op[0]]
+                lines.append(S.runner.call(lambda S=S, op=op: do_op(S, op[1:])))
+        # one query per service at the end: whatever another service's operation changed here shows up now
+        for S in svcs:
+            lines.append(S.runner.call(lambda S=S: do_op(S, ["isFlushed", 0])))
+        lines.append("(end)")
+    finally:
+        flag["closed"] = True
+        for S in svcs:
+            try:
+                S.cleanup()
+            except BaseException as e:
+                if type(e).__name__ == "CaseTimeout":
+                    raise
+        for o, x in saved.items():
+            setattr(dbg, o, x)
+        if sink is not None:
+            sink[0].stdout = sink[1]
+        if "COLLECT_PERF_STATS" in saved:
+            try:
+                asynq.profiler.reset()
+            except Exception:
+                pass
+        for r in runners.values():
+            r.stop()
+
+    text = "\n".join(lines)
+    nops = len(case["ops"])
+    feats = ["fam=svc", "services=%d" % len(svcs), "len<=%d" % next(b for b in (3, 8, 16, 24, 10**9) if nops <= b)]
+    feats += sorted({"kind=" + S.kind for S in svcs})
+    feats += sorted({"name=" + S.nkind for S in svcs if S.kind == "debug"})
+    feats += sorted({"thread=%d" % S.thread for S in svcs})
+    feats += sorted({"op=" + (o[0] if isinstance(o[0], str) else o[1]) for o in case["ops"]})
+    feats += ["opt=" + o for o in opts0] or ["opt=none"]
+    feats += sorted("midflight=" + o for o in toggled)
+    feats.append("free-standing-batch-finished=%d" % min(stats["free_finished"], 3))
+    feats.append("finished-with-items=%d" % min(stats["finished"], 3))
+    for key, needle in (("second-flush-raises", "(raised batching)"), ("add-after-finish-raises", "(raised assertAdd)"),
+                        ("item-not-set", "(err notSet)"), ("double-set-in-body", "(err already)"),
+                        ("announce", "(announce "), ("body", "(body ")):
+        if needle in text:
+            feats.append("seen=" + key)
+    if stats["during"]:
+        feats.append("seen=request-during-flush")
+    feats.append("sibling-completed-by-handler=%d" % min(stats["linked"], 3))
+    nontrivial = None
+    if stats["finished"] >= 1 and nops >= 3:
+        nontrivial = hashlib.sha1(json.dumps([case["svcs"], opts0, case["ops"]]).encode()).hexdigest()[:16]
+    return {"lines": lines, "features": feats, "nontrivial": nontrivial}
+
+
+# ---------------------------------------------------------------------------------------------------
+# family `sched` (mode batchingm / sched): DebugBatch items awaited by tasks, the scheduler flushes the batches
+# ---------------------------------------------------------------------------------------------------
+
+def run_sched(case):
+    import asynq
+    from asynq import batching
+
+    compiled = not batching.__file__.endswith(".py")
+    _serial[0] += 1
+    uniq = case.get("id", 0) * 1000 + _serial[0] % 1000
+    rounds = case["rounds"]
+    sds = case["svcs"]                     # [{"name": kind, "tasks": k}]
+    opts = list(case.get("opts") or [])
+    runner = _Runner() if case.get("thread") else _Inline()
+    names = [make_name(sd.get("name", "plain"), uniq, compiled, j) for j, sd in enumerate(sds)]
+    seen, order = {}, []
+    out = {}
+
+    def body():
+        reg = batching._debug_batch_state
+        for nkind, key, tag in names:
+            try:
+                b = reg.batches.get(key())
+                if b is not None and not b.is_computed():
+                    b.cancel()
+            except AssertionError:
+                pass
+
+        def request(j, payload):
+            nkind, key, tag = names[j]
+            it = debug_item(batching, nkind, key, tag, 0 if payload is None else 1 + (payload[3] % 2), payload)
+            b = it.batch
+            if id(b) not in seen:
+                rec = {"svc": j, "obj": b, "items": 0, "pending": 0, "announced": 0, "active": 0}
+                seen[id(b)] = rec
+                order.append(rec)
+
+                def announced(_b, rec=rec, key=key):
+                    rec["announced"] += 1
+                    rec["items"] = len(rec["obj"].items)
+                    rec["pending"] = sum(1 for x in rec["obj"].items if not x.is_computed())
+                    rec["active"] = 1 if reg.batches.get(key()) is rec["obj"] else 0
+
+                b.on_computed.subscribe(announced)
+            return it
+
+        def payload_of(j, t, r):
+            return None if (j + t + r) % 5 == 4 else ("p", j, t, r)
+
+        @asynq.asynq()
+        def task(j, t):
+            got = []
+            for r in range(rounds):
+                x = yield request(j, payload_of(j, t, r))
+                got.append(x)
+            return got
+
+        @asynq.asynq()
+        def main():
+            res = yield [[task.asynq(j, t) for t in range(sd["tasks"])] for j, sd in enumerate(sds)]
+            return res
+
+        try:
+            res = main()
+            good = all(res[j][t][r] is None if payload_of(j, t, r) is None else res[j][t][r] == payload_of(j, t, r)
+                       for j, sd in enumerate(sds) for t in range(sd["tasks"]) for r in range(rounds))
+            out["result"] = "(result ok %s)" % ("values-ok" if good else "values-bad")
+        except BaseException as e:
+            if type(e).__name__ == "CaseTimeout":
+                raise
+            out["result"] = "(result %s raised)" % type(e).__name__
+        after = []
+        for j, (nkind, key, tag) in enumerate(names):
+            a = reg.batches.get(key())
+            if a is None:
+                after.append("(after %d 0 0 0)" % j)
+            else:
+                after.append("(after %d %d %d %d)" % (j, 0 if a.is_flushed() else 1, 1 if a.is_empty() else 0,
+                                                     0 if id(a) in seen else 1))
+        out["after"] = after
+
+    dbg = asynq.debug.options
+    saved = {}
+    sink = None
+    try:
+        import io
+        sink = (asynq.debug, asynq.debug.stdout)
+        asynq.debug.stdout = io.StringIO()
+    except Exception:
+        sink = None
+    try:
+        for o in opts:
+            saved[o] = getattr(dbg, o)
+            setattr(dbg, o, True)
+        runner.call(body)
+    finally:
+        for o, x in saved.items():
+            setattr(dbg, o, x)
+        if sink is not None:
+            sink[0].stdout = sink[1]
+        if "COLLECT_PERF_STATS" in opts:
+            try:
+                asynq.profiler.reset()
+            except Exception:
+                pass
+        runner.stop()
+    lines = ["(case batchingm %d sched (rounds %d) (svcs %s))" % (case["id"], rounds, " ".join(str(sd["tasks"]) for sd in sds)),
+             out.get("result", "(result missing raised)")]
+    for rec in order:
+        b = rec["obj"]
+        final = "pending" if not b.is_flushed() else ("cancelled" if b.is_cancelled() else "flushed")
+        lines.append("(batch %d %d %d %d %s %d)" % (rec["svc"], rec["items"], rec["pending"], rec["announced"], final,
+                                                    rec["active"]))
+    lines += out.get("after", [])
+    lines.append("(end)")
+    feats = ["fam=sched", "services=%d" % len(sds), "rounds=%d" % rounds, "thread=%d" % (1 if case.get("thread") else 0)]
+    feats += sorted({"name=" + n[0] for n in names})
+    feats += ["opt=" + o for o in opts] or ["opt=none"]
+    nontrivial = hashlib.sha1(json.dumps([sds, rounds, opts, case.get("thread", 0)]).encode()).hexdigest()[:16]
+    return {"lines": lines, "features": feats, "nontrivial": nontrivial}
+
+
+def run_case(case):
+    fam = case.get("fam")
+    if fam == "svc":
+        return run_multi(case)
+    if fam == "sched":
+        return run_sched(case)
+    return _run_single(case)
